@@ -8,6 +8,7 @@ package main
 // stand-alone). The first definitive answer wins; none => unknown.
 
 import (
+	"strconv"
 	"bytes"
 	"context"
 	"fmt"
@@ -179,4 +180,54 @@ func (ex *Exec) Standalone(extra *Term, capSec int) (Result, *Model) {
 		ex.standaloneOK++
 	}
 	return res.r, res.model
+}
+
+// xcheckEvery: every n-th incrementally decided query of a worker is decided
+// again, stand-alone, by z3 4.8.12 and cvc5 (a different z3 generation and a
+// different solver), and the answers are compared. 0 disables.
+var xcheckEvery = func() int {
+	n, err := strconv.Atoi(envDefault("SYMX_XCHECK", "200"))
+	if err != nil || n < 0 {
+		return 200
+	}
+	return n
+}()
+
+func (ex *Exec) crossCheck(extra *Term, got Result) {
+	asserts := append([]*Term{}, ex.pc...)
+	if extra != nil {
+		asserts = append(asserts, extra)
+	}
+	script := ex.tb.scriptFor(asserts, nil)
+	f, err := os.CreateTemp("", "symx-xc-*.smt2")
+	if err != nil {
+		return
+	}
+	defer os.Remove(f.Name())
+	f.WriteString(script)
+	f.Close()
+	ctx, cancel := context.WithTimeout(context.Background(), 20*time.Second)
+	defer cancel()
+	ex.xcheckN++
+	decided := false
+	for _, c := range [][]string{{"z3", "-smt2", f.Name()}, {"cvc5", "--lang=smt2", f.Name()}} {
+		cmd := exec.CommandContext(ctx, c[0], c[1:]...)
+		var out bytes.Buffer
+		cmd.Stdout = &out
+		cmd.Run()
+		r, _ := parseStandalone(out.String())
+		if r == Unknown {
+			continue
+		}
+		decided = true
+		if r != got {
+			ex.xcheckDisagree++
+			return
+		}
+	}
+	if decided {
+		ex.xcheckAgree++
+	} else {
+		ex.xcheckUndecided++
+	}
 }
